@@ -321,6 +321,16 @@ func genLongCase(t *rapid.T) stepCase {
 			c.Core[i] = gen.Instr(m).Draw(t, "cell")
 		}
 	}
+	if gen.Rare(t, "verylong", 3) {
+		// thousands of cycles with process limits in the hundreds and thousands that are
+		// not powers of two: the queue passes 256, 1024, ... entries while its head moves
+		c.Cfg.P = rapid.SampledFrom([]int{257, 300, 1000, 1025, 1500, 3000, 8000}).Draw(t, "Pbig")
+		c.Steps = rapid.IntRange(1500, 7000).Draw(t, "stepsbig")
+		c.Cfg.Cycles = c.Steps
+		// a splitter that cannot die: spl 0 / jmp -1 (plus whatever else the core holds)
+		c.Core[c.PC] = ref.Instr{Op: ref.SPL, Mod: ref.MB, A: rapid.SampledFrom([]int{0, 0, 1, 2}).Draw(t, "spla") % m}
+		c.Core[(c.PC+1)%m] = ref.Instr{Op: ref.JMP, Mod: ref.MB, A: m - 1}
+	}
 	return c
 }
 
